@@ -1,0 +1,207 @@
+//! Read-only verification hooks (cargo feature `verif-hooks`, off by default).
+//!
+//! These hooks expose a copy of the internal state of the solver at quiescent
+//! points (i.e. after [`Solver::solve`] returned) so that external monitors can
+//! check invariants of the clause database, the watch lists and the
+//! assignment trail. Nothing in here modifies the state of the solver.
+
+use super::{Solver, clause::Clause, clause::Literal, variable_map::VariableOrigin};
+use crate::{
+    DependencyProvider, NameId, Requirement, StringId, VersionSetId,
+    internal::{arena::ArenaId, id::VariableId},
+    runtime::AsyncRuntime,
+};
+
+/// What a variable of the SAT problem stands for.
+#[derive(Clone, Copy, Debug, PartialEq, Eq, Hash, PartialOrd, Ord)]
+pub enum VerifVar {
+    /// The root of the problem.
+    Root,
+    /// A solvable (by id).
+    Solvable(u32),
+    /// A helper variable of the at-most-one encoding of a package (name,
+    /// variable index).
+    Helper(u32, u32),
+}
+
+/// A literal: the variable and the value that satisfies the literal.
+pub type VerifLit = (VerifVar, bool);
+
+/// The kind of a dumped clause together with its non-literal context.
+#[derive(Clone, Debug, PartialEq, Eq)]
+pub enum VerifKind {
+    /// The root must be installed.
+    Root,
+    /// `parent` (`None` is the root) requires the requirement.
+    Requires(VerifVar, Requirement),
+    /// At most one solvable of the package.
+    Forbid(NameId),
+    /// The first solvable constrains the second through the version set.
+    Constrains(VersionSetId),
+    /// The package is locked to the given solvable variable.
+    Lock(VerifVar),
+    /// A learnt clause.
+    Learnt,
+    /// Excluded for the given reason.
+    Excluded(StringId),
+}
+
+/// A dumped clause.
+#[derive(Clone, Debug)]
+pub struct VerifClause {
+    /// The kind of clause.
+    pub kind: VerifKind,
+    /// All literals of the clause.
+    pub literals: Vec<VerifLit>,
+    /// For learnt clauses: the clauses they were derived from.
+    pub why: Vec<usize>,
+    /// The literals that are currently watched, if any.
+    pub watched: Option<[VerifLit; 2]>,
+    /// The next clause in each of the two watch lists.
+    pub next_watches: [Option<usize>; 2],
+}
+
+/// An entry of the assignment trail.
+#[derive(Clone, Debug)]
+pub struct VerifAssignment {
+    /// The assigned variable.
+    pub var: VerifVar,
+    /// The assigned value.
+    pub value: bool,
+    /// The decision level of the assignment.
+    pub level: u32,
+    /// The clause the assignment was derived from.
+    pub reason: usize,
+}
+
+/// Counters of events that happened during the last call to `solve`.
+#[derive(Clone, Debug, Default)]
+pub struct VerifCounters {
+    /// Number of calls to `run_sat`.
+    pub run_sat_calls: u32,
+    /// Number of times the decision loop was reset because newly added clauses
+    /// conflicted with the partial solution.
+    pub restarts: u32,
+    /// Number of conflicts encountered during propagation after a decision.
+    pub conflicts: u32,
+    /// The highest level at which a conflict occurred.
+    pub max_conflict_level: u32,
+    /// The largest number of levels jumped back after a conflict.
+    pub max_backjump: u32,
+}
+
+/// A copy of the state of the solver.
+#[derive(Clone, Debug, Default)]
+pub struct VerifDump {
+    /// The clauses in allocation order.
+    pub clauses: Vec<VerifClause>,
+    /// The assignment trail in assignment order.
+    pub trail: Vec<VerifAssignment>,
+    /// The head of the watch list of every literal that has one.
+    pub watch_heads: Vec<(VerifLit, usize)>,
+    /// Unit clauses that are tracked outside of the watch lists.
+    pub negative_assertions: Vec<(VerifVar, usize)>,
+    /// Ids of the learnt clauses in the order in which they were learnt.
+    pub learnt_clause_ids: Vec<usize>,
+    /// Number of variables.
+    pub variables: usize,
+    /// Event counters.
+    pub counters: VerifCounters,
+}
+
+impl<D: DependencyProvider, RT: AsyncRuntime> Solver<D, RT> {
+    /// Returns the event counters of the last call to `solve`.
+    pub fn verif_counters(&self) -> VerifCounters {
+        self.state.verif_counters.clone()
+    }
+
+    /// The number of candidate requests that the cache considers in flight.
+    pub fn verif_in_flight(&self) -> usize {
+        self.cache.verif_in_flight()
+    }
+
+    /// Returns a copy of the clause database, watch lists and trail.
+    pub fn verif_dump(&self) -> VerifDump {
+        let st = &self.state;
+        let var = |v: VariableId| match st.variable_map.origin(v) {
+            VariableOrigin::Root => VerifVar::Root,
+            VariableOrigin::Solvable(s) => VerifVar::Solvable(s.0),
+            VariableOrigin::ForbidMultiple(n) => VerifVar::Helper(n.0, v.to_usize() as u32),
+        };
+        let lit = |l: Literal| (var(l.variable()), l.satisfying_value());
+
+        let mut out = VerifDump {
+            variables: st.variable_map.verif_len(),
+            counters: st.verif_counters.clone(),
+            ..VerifDump::default()
+        };
+
+        for (i, c) in st.clauses.kinds.iter().enumerate() {
+            let kind = match *c {
+                Clause::InstallRoot => VerifKind::Root,
+                Clause::Requires(parent, requirement) => {
+                    VerifKind::Requires(var(parent), requirement)
+                }
+                Clause::ForbidMultipleInstances(_, _, name) => VerifKind::Forbid(name),
+                Clause::Constrains(_, _, version_set) => VerifKind::Constrains(version_set),
+                Clause::Lock(locked, _) => VerifKind::Lock(var(locked)),
+                Clause::Learnt(_) => VerifKind::Learnt,
+                Clause::Excluded(_, reason) => VerifKind::Excluded(reason),
+            };
+            let mut literals = Vec::new();
+            match c {
+                Clause::InstallRoot => literals.push((VerifVar::Root, true)),
+                _ => c.visit_literals(
+                    &st.learnt_clauses,
+                    &st.requirement_to_sorted_candidates,
+                    |l| literals.push(lit(l)),
+                ),
+            }
+            let why = match c {
+                Clause::Learnt(id) => st
+                    .learnt_why
+                    .get(*id)
+                    .map(|w| w.iter().map(|c| c.to_usize()).collect())
+                    .unwrap_or_default(),
+                _ => Vec::new(),
+            };
+            let watches = st.clauses.watched_literals[i].as_ref();
+            out.clauses.push(VerifClause {
+                kind,
+                literals,
+                why,
+                watched: watches.map(|w| [lit(w.watched_literals[0]), lit(w.watched_literals[1])]),
+                next_watches: watches
+                    .map(|w| w.next_watches.map(|n| n.map(|c| c.to_usize())))
+                    .unwrap_or([None, None]),
+            });
+        }
+
+        for d in st.decision_tracker.stack() {
+            out.trail.push(VerifAssignment {
+                var: var(d.variable),
+                value: d.value,
+                level: st.decision_tracker.level(d.variable),
+                reason: d.derived_from.to_usize(),
+            });
+        }
+
+        for idx in 0..st.variable_map.verif_len() {
+            let variable = VariableId::from_usize(idx);
+            for l in [variable.positive(), variable.negative()] {
+                if let Some(head) = st.watches.verif_head(l) {
+                    out.watch_heads.push((lit(l), head.to_usize()));
+                }
+            }
+        }
+
+        out.negative_assertions = st
+            .negative_assertions
+            .iter()
+            .map(|&(v, c)| (var(v), c.to_usize()))
+            .collect();
+        out.learnt_clause_ids = st.learnt_clause_ids.iter().map(|c| c.to_usize()).collect();
+
+        out
+    }
+}
